@@ -118,7 +118,8 @@ def worker_loop(
                                 msg.ack()
                             except Exception:
                                 pass
-                            continue
+                            # reported on the status channel by the handler below
+                            raise
                     if not isinstance(pcfg, list) or not all(
                         isinstance(step, dict) for step in pcfg
                     ):
@@ -126,7 +127,9 @@ def worker_loop(
                             f"Invalid pipeline configuration received for job {job_id}: {pcfg}"
                         )
                         msg.ack()  # acknowledge to remove the message if applicable
-                        continue  # skip processing this message
+                        raise TypeError(
+                            f"Invalid pipeline configuration received for job {job_id}"
+                        )
                     data = msg.data or NoDataType()
                     context = msg.context or ContextType()
 
